@@ -64,7 +64,7 @@ def scenario(draw, feat=None):
     pn = sorted(pats)
     spec = {'opts': o, 'patterns': pats, 'curves': {}, 'junctions': [], 'tanks': [], 'reservoirs': [],
             'pipes': [], 'pumps': [], 'valves': [], 'controls': [], 'profile': 'tankgen'}
-    nj = draw(st.integers(1, 4))
+    nj = draw(st.sampled_from([1, 2, 2, 3, 3, 4]))
     qm = 0.0
     qp = 0.0
     for i in range(nj):
@@ -99,7 +99,7 @@ def scenario(draw, feat=None):
 
     # ---- chain of junctions (short fat pipes), optional valve with bypass, optional loop
     valve_at = None
-    if feat.get('valves', True) and nj >= 2 and draw(st.integers(0, 2)) == 0:
+    if feat.get('valves', True) and nj >= 2 and draw(st.integers(0, 1)) == 0:
         valve_at = draw(st.integers(0, nj - 2))
     for i in range(nj - 1):
         if valve_at == i:
@@ -250,7 +250,7 @@ def controls(draw, spec, feat):
 
     def action(target=None, value=None):
         if target is None:
-            pool = status_targets + valves * 3
+            pool = status_targets + valves * 8
             target = draw(st.sampled_from(pool))
         if target in valves:
             if value is None and draw(st.booleans()):
@@ -286,9 +286,9 @@ def controls(draw, spec, feat):
             up = draw(st.booleans())
             add(tank_cond(t, up, level_thr(t)), action())
         elif kind == 'hyst':
-            a = level_thr(t)
-            b = level_thr(t)
-            lo_, hi_ = min(a, b), max(a, b)
+            rng = t['max'] - t['min']
+            lo_ = r(t['min'] + rng * draw(st.sampled_from([0.0, 0.05, 0.2, 0.35, 0.5, 0.65])), 3)
+            hi_ = r(min(t['max'], lo_ + rng * draw(st.sampled_from([0.1, 0.2, 0.3, 0.5]))), 3)
             target = draw(st.sampled_from(status_targets))
             inv = draw(st.integers(0, 3)) == 0          # usually: low level opens the feed, high level closes it
             add(tank_cond(t, False, lo_), action(target, 'CLOSED' if inv else 'OPEN'))
@@ -314,10 +314,30 @@ def controls(draw, spec, feat):
             c1 = press_cond(False)
             c2 = dict(c1)
             c2['op'] = draw(st.sampled_from(OPS_UP))
-            c2['thr'] = r(c1['thr'] + draw(st.sampled_from([3.0, 8.0, 15.0])), 2)
+            c2['thr'] = r(c1['thr'] + draw(st.sampled_from([8.0, 15.0, 30.0])), 2)
             add(c1, action(target, 'OPEN'))
             add(c2, action(target, 'CLOSED'))
-    return out[:max(n, 1)] if n else []
+    out = out[:max(n, 1)]
+    # two controls on one tank and one link with opposite directions, opposite commands and (nearly) the same
+    # threshold would switch the link every 1-2 s for the whole run: keep such thresholds apart
+    tk = dict((t['name'], t) for t in tanks)
+    for j in range(len(out)):
+        cj = out[j]
+        if cj['node'] not in tk:
+            continue
+        t = tk[cj['node']]
+        gap = 0.08 * (t['max'] - t['min'])
+        shift = t['elev'] if cj['nattr'] == 'head' else 0.0
+        for i in range(j):
+            ci = out[i]
+            if ci['node'] != cj['node'] or ci['link'] != cj['link'] or ci['op'][0] == cj['op'][0]:
+                continue
+            if ci['attr'] == cj['attr'] and ci['value'] == cj['value']:
+                continue
+            li = ci['thr'] - (t['elev'] if ci['nattr'] == 'head' else 0.0)
+            if abs((cj['thr'] - shift) - li) < gap:
+                cj['thr'] = r(li + (1.25 * gap if cj['op'][0] == '>' else -1.25 * gap) + shift, 3)
+    return out
 
 
 # ------------------------------------------------------------------------------------------------- reference volume
@@ -348,3 +368,65 @@ def mean_area(spec, tk, l0, l1):
         d = 1e-6
         return abs((tank_volume(spec, tk, l0 + d) - tank_volume(spec, tk, l0 - d)) / (2 * d))
     return math.pi * tk['diam'] ** 2 / 4.0
+
+
+# ------------------------------------------------------------------------------------------------- shared by C05/C06
+HTOL = 1.524e-4      # wntr.sim.core.WNTRSimulator._Htol (EPANET Htol, 0.0005 ft)
+QTOL = 2.83168e-6    # wntr.sim.core.WNTRSimulator._Qtol (EPANET Qtol, 1e-4 cfs)
+
+
+def spec_tags(spec):
+    tags = ['feed:' + spec.get('meta', {}).get('feed', '?'), 'hyd:%d' % spec['opts']['hyd'],
+            'dur_h:%d' % (spec['opts']['duration'] // 3600), 'mode:' + spec['opts']['demand_model'],
+            'ntanks:%d' % len(spec['tanks'])]
+    tn = set(t['name'] for t in spec['tanks'])
+    for t in spec['tanks']:
+        tags.append('tank:curve' if t.get('vol_curve') else 'tank:cyl')
+        if t['init'] == t['min']:
+            tags.append('init_at_min')
+        if t['init'] == t['max']:
+            tags.append('init_at_max')
+        if t.get('vol_curve'):
+            pts = spec['curves'][t['vol_curve']]['pts']
+            if pts[-1][0] == t['max']:
+                tags.append('curve_ends_at_max')
+            if pts[0][0] == t['min']:
+                tags.append('curve_starts_at_min')
+        nl = 0
+        for p in spec['pipes']:
+            if p['a'] in tn and p['b'] in tn:
+                tags.append('tank_to_tank_link')
+            if t['name'] in (p['a'], p['b']):
+                nl += 1
+                if p['cv']:
+                    tags.append('tanklink:cv_in' if p['b'] == t['name'] else 'tanklink:cv_out')
+                else:
+                    tags.append('tanklink:pipe')
+        for p in spec['pumps']:
+            if t['name'] in (p['a'], p['b']):
+                nl += 1
+                tags.append('tanklink:pump_in' if p['b'] == t['name'] else 'tanklink:pump_out')
+        if nl >= 2:
+            tags.append('tank_multi_link')
+    for v in spec['valves']:
+        tags.append('valve:' + v['type'])
+    return tags
+
+
+def simulate(spec):
+    """-> (run, None) or (None, ('fail'|'inconclusive', key, text))"""
+    from .. import spec as S
+    from ..outcome import exc_bucket
+    try:
+        wn = S.build_wn(spec)
+    except Exception as e:
+        return None, ('fail', exc_bucket(e, 'build'), 'building the model raised %r' % (e,))
+    run = S.run_wntr(wn, hw_approx=spec['opts']['hw_approx'])
+    if run.exception is not None:
+        return None, ('inconclusive', 'run_sim raised %s' % type(run.exception).__name__, repr(run.exception))
+    if not run.ok:
+        why = 'trials exceeded' if any('trials' in w for w in run.warnings) else 'newton'
+        return None, ('inconclusive', 'not converged (%s)' % why, '')
+    if len(run.times) < 2:
+        return None, ('inconclusive', 'fewer than 2 reported steps', '')
+    return run, None
